@@ -30,7 +30,8 @@ TRUSTED = ['Coq standard-library Reals axioms (ClassicalDedekindReals.sig_forall
            'bevel kind/normal of sector/styled.rs:63-88 are recomputed in harness/src/suites/c18_sector.rs through the public Angle API']
 ASSUMPTIONS = ['sector/arc bounding boxes within +-2^29 (rect_ok), where the unbounded model equals i32/u32 arithmetic']
 
-EPS_MILLI = 3000
+EPS_MILLI = 3000        # f32 / micromath build: measured 2.12
+EPS_MILLI_FP = 10000    # fixed_point build: whole-degree table lookup, 1024*sin(0.5 deg) = 8.94 + truncation; measured 9.80
 
 
 def D(k):
@@ -38,12 +39,19 @@ def D(k):
     return 'D%d' % (k * 100)
 
 
-def hook(pairs):
+def run_lines(exe, lines):
+    if not lines:
+        return []
+    out = subprocess.run([exe], input='\n'.join(lines) + '\n', stdout=subprocess.PIPE, stderr=subprocess.DEVNULL, text=True, timeout=3000).stdout.split('\n')
+    return [out[k] if k < len(out) else 'MISSING-OUTPUT' for k in range(len(lines))]
+
+
+def hook(pairs, exe=None):
     """[(A, S)] -> [[op, lx, ly, rx, ry, bk, bx, by]] from the implementation"""
     if not pairs:
         return []
     inp = '\n'.join('hook_normals %s %s' % p for p in pairs) + '\n'
-    out = subprocess.run([ORACLE], input=inp, stdout=subprocess.PIPE, stderr=subprocess.DEVNULL, text=True, timeout=900).stdout.split('\n')
+    out = subprocess.run([exe or ORACLE], input=inp, stdout=subprocess.PIPE, stderr=subprocess.DEVNULL, text=True, timeout=900).stdout.split('\n')
     res = []
     for k in range(len(pairs)):
         t = out[k].split() if k < len(out) else []
@@ -163,4 +171,67 @@ def search(tier, rng):
         k = rng.random()
         d = rng.randrange(0, 26) if k < 0.5 else rng.randrange(0, 129)
         out.append(J('p_sec_within', coord(rng), coord(rng), d, rand_angle(rng), rand_sweep(rng)))
+    return out + fixed_point_search(tier, rng)
+
+
+# ---- the `fixed_point` feature set ---------------------------------------------------------------
+# ./check builds one harness binary (default features).  The property also speaks about the fixed_point
+# build, so this part builds a second binary (.build/cargo-fp) from the same harness sources with
+# `--features fixed_point`, runs the trig / geometric search suites and a model correspondence batch on it
+# (normals from the fixed-point hook) and hands each verdict to the check as a `p_fixed_point` search line.
+def fp_oracle():
+    h = os.path.join(V, 'harness')
+    env = dict(os.environ, CARGO_NET_OFFLINE='true', CARGO_TARGET_DIR=os.path.join(V, '.build', 'cargo-fp'))
+    p = subprocess.run('cargo build -j4 --release --offline --features fixed_point', shell=True, cwd=h, env=env,
+                       stdout=subprocess.PIPE, stderr=subprocess.STDOUT, text=True, timeout=3000)
+    exe = os.path.join(V, '.build', 'cargo-fp', 'release', 'eg_oracle')
+    return exe if p.returncode == 0 and os.path.exists(exe) else None
+
+
+def fixed_point_search(tier, rng):
+    exe = fp_oracle()
+    if exe is None:
+        return ['p_fixed_point FAIL class=fixed_point_build the harness does not build with --features fixed_point']
+    lines = []
+    for lo in range(-1080, 1080, 120):
+        lines.append(J('p_trig_deg', lo, lo + 120, EPS_MILLI_FP))
+    for lo in range(0, 360, 24):
+        lines.append(J('p_trig_pairs', lo, lo + 23, EPS_MILLI_FP))
+    k, per = (10, 10000) if tier == 'quick' else (80, 250000)
+    for j in range(k):
+        lines.append(J('p_trig_rand', rng.randrange(1 << 48), per, EPS_MILLI_FP))
+        lines.append(J('p_entire', rng.randrange(1 << 48), per // 2))
+    for s in range(0, 360, 15 if tier == 'quick' else 3):
+        for j, w in enumerate([-359, -270, -181, -180, -100, -54, -2, 1, 33, 89, 90, 135, 179, 180, 200, 306, 355, 360, 720]):
+            lines.append(J('p_sec_within', 0, 0, [9, 24, 63, 128, 40][(s + j) % 5], D(s), D(w)))
+    for _ in range(500 if tier == 'quick' else 10000):
+        d = rng.randrange(0, 26) if rng.random() < 0.5 else rng.randrange(0, 129)
+        lines.append(J('p_sec_within', coord(rng), coord(rng), d, rand_angle(rng), rand_sweep(rng)))
+        lines.append(J('p_sec_c05', coord(rng), coord(rng), rng.randrange(0, 41), rand_angle(rng), rand_sweep(rng), rng.randrange(0, 4)))
+    out = ['p_fixed_point %s :: %s' % (r, l) for l, r in zip(lines, run_lines(exe, lines))]
+    # correspondence of the model with the fixed-point build
+    spec = []
+    for s in range(0, 360, 5 if tier == 'quick' else 1):
+        for j in range(6 if tier == 'quick' else 40):
+            spec.append((0, 0, 23 + (s + j) % 2, D(s), D(((s * 7 + j * 121) % 721) - 360), rand_style(rng)))
+    for _ in range(1000 if tier == 'quick' else 20000):
+        spec.append((coord(rng), coord(rng), rng.randrange(0, 41), rand_angle(rng), rand_sweep(rng), rand_style(rng)))
+    hs = hook([(t[3], t[4]) for t in spec], exe)
+    cl = []
+    for (x, y, d, a, s, st), nn in zip(spec, hs):
+        ps = J(*nn[:5])
+        cl.append(J('sec_mask', x, y, d, a, s, ps))
+        cl.append(J('arc_mask', x, y, d, a, s, ps))
+        cl.append(J('sec_styled', x, y, d, a, s, ps, *nn[5:8], *st))
+        cl.append(J('arc_styled', x, y, d, a, s, ps, *st))
+    impl = run_lines(exe, cl)
+    model = run_lines(os.path.join(V, '.build', 'ocaml', 'model_oracle'), cl)
+    B = 500
+    for i in range(0, len(cl), B):
+        bad = [(l, a, b) for l, a, b in zip(cl[i:i + B], impl[i:i + B], model[i:i + B]) if a != b]
+        if bad:
+            l, a, b = bad[0]
+            out.append('p_fixed_point FAIL class=fixed_point_correspondence %d of %d cases differ, first: %s impl=%s model=%s' % (len(bad), len(cl[i:i + B]), l, a[:120], b[:120]))
+        else:
+            out.append('p_fixed_point OK correspondence model vs fixed_point build, cases %d..%d' % (i, i + len(cl[i:i + B])))
     return out
